@@ -570,6 +570,7 @@ int main(int argc, char **argv) {
     std::ostream &o = std::cout;
     std::string line;
     const bool flushEach = getenv("BGH_FLUSH") != nullptr;
+    bool quiet = false;
     auto get = [&](int s) -> SlotBase * {
         auto it = slots.find(s);
         return it == slots.end() ? nullptr : it->second.get();
@@ -577,7 +578,8 @@ int main(int argc, char **argv) {
     while (std::getline(std::cin, line)) {
         std::string t = trim(line);
         if (t.empty() || t[0] == '#') { if (echoFile.is_open()) echoFile << t << "\n"; continue; }
-        if (t == "reset") { slots.clear(); o << "R reset\n"; o.flush(); if (echoFile.is_open()) echoFile << t << "\n"; continue; }
+        if (t == "mode quiet" || t == "mode verbose") { quiet = (t == "mode quiet"); o << "> " << t << "\n"; if (echoFile.is_open()) echoFile << t << "\n"; continue; }
+        if (t == "reset") { slots.clear(); quiet = false; o << "R reset\n"; o.flush(); if (echoFile.is_open()) { echoFile << t << "\n"; echoFile.flush(); } continue; }
         Args w = split(t);
         std::string echo = t;
         std::ostringstream out;
@@ -711,8 +713,15 @@ int main(int argc, char **argv) {
             }
         }
         o << "> " << echo << "\n";
-        if (ok) o << out.str();
-        else o << "bad-op\n";
+        if (ok) {
+            if (!quiet || verb == "dump") o << out.str();
+            else { // quiet: outcome (R/P) lines only
+                std::istringstream is(out.str());
+                std::string l;
+                while (std::getline(is, l))
+                    if (l.compare(0, 2, "R ") == 0 || l.compare(0, 2, "P ") == 0) o << l << "\n";
+            }
+        } else o << "bad-op\n";
         if (echoFile.is_open()) echoFile << echo << "\n";
         if (flushEach) { o.flush(); if (echoFile.is_open()) echoFile.flush(); }
     }
